@@ -1046,6 +1046,7 @@ func (ce *cenv) evalCall(e *CExpr) cvar {
 				as = append(as, x.toTerm(v.v, v.t))
 			}
 		}
+		as = rangeLocal(e.Args[0].Name, as)
 		return cvar{v: mkApp("uf:"+e.Args[0].Name, sortInt, as...), t: mathInt}
 	case "ufs":
 		// ufs(name, args...): uninterpreted string-valued function
@@ -1257,4 +1258,38 @@ func (ce *cenv) evalCrypto(e *CExpr) cvar {
 		cs = append(cs, mkEq(x.byteAt(ce.st, d, k), spec[k]))
 	}
 	return cvar{v: mkAnd(cs...), t: types.Typ[types.Bool]}
+}
+
+// rangeLocal: functions of (array, offset, length) that depend only on array[offset, offset+length)
+// (checksums, authenticity of a ciphertext): stores outside that range are dropped from the
+// array argument, so that writing the header in front of a payload does not change the
+// function's value on the payload.
+func rangeLocal(name string, as []*Term) []*Term {
+	if (name != "crc32" && name != "aeadAuthentic") || len(as) != 3 || as[0].Sort.Kind != SArray {
+		return as
+	}
+	arr, off, ln := as[0], as[1], as[2]
+	end := mkAdd(off, ln)
+	for arr.Op == OpStore {
+		i := arr.Args[1]
+		if provablyLt(i, off) || provablyLe(end, i) {
+			arr = arr.Args[0]
+			continue
+		}
+		break
+	}
+	return []*Term{arr, off, ln}
+}
+
+// provablyLt: a < b by comparing constant offsets from a common base.
+func provablyLt(a, b *Term) bool {
+	ba, ca := splitConst(a)
+	bb, cb := splitConst(b)
+	return ba == bb && ca.Cmp(cb) < 0
+}
+
+func provablyLe(a, b *Term) bool {
+	ba, ca := splitConst(a)
+	bb, cb := splitConst(b)
+	return ba == bb && ca.Cmp(cb) <= 0
 }
